@@ -95,8 +95,16 @@ def bool_typed(draw):
 # ---- result columns without alias, which the renderer labels itself (constant -> its text, CAST(col) -> col),
 #      and an ORDER BY that names a table column spelled like that label
 def captured_order(draw):
-    form = _pick(draw, ['const', 'cast'])
+    form = _pick(draw, ['const', 'cast', 'func'])
     tags = {'order', 'order:names-column-spelled-like-added-label', 'added-label:' + form}
+    if form == 'func':
+        # a function call without alias is labelled with the name of the function: length(..) AS length
+        fn, arg = _pick(draw, [('length', 's1.s'), ('abs', 's1.b'), ('coalesce', 's1.b, 0'), ('upper', 's1.s')])
+        src = _pick(draw, ['a', 'b'])
+        d = _pick(draw, ['', ' DESC'])
+        return _sel(f"SELECT {fn}({arg}), s1.b AS c1, s1.s AS c2, s1.{fn} AS c3 "
+                    f"FROM (SELECT x1.{src} AS {fn}, x1.b AS b, x1.s AS s FROM t1 AS x1) AS s1 "
+                    f"ORDER BY {fn}{d}, c1, c2", tags | {'sub:from'}, order_cols=[3, 1, 2], total_order=True)
     if form == 'const':
         col = _pick(draw, ['a', 'b', 's'])
         other = [c for c in ['a', 'b', 's'] if c != col]
@@ -209,8 +217,169 @@ def exponent_const(draw):
     return _sel(f'SELECT x1.a AS c0, x1.b AS c1 FROM t1 AS x1 WHERE (x1.a < {c})', tags)
 
 
+# ---- WITH inside a sub-query (IN / EXISTS / scalar / derived table / join operand / DML condition); the CTE is called
+#      like a table that is read outside the sub-query, or has a name of its own.  A renderer that prints the WITH clause
+#      anywhere else than in front of its own sub-query changes what the outer query reads
+CTE_BODIES = {'t1': ['SELECT y0.a AS a FROM {o} AS y0', 'SELECT y0.a AS a FROM {o} AS y0 WHERE (y0.a > 1)', 'SELECT 7 AS a'],
+              }
+CTE_SUB_PLACES = ['in', 'not-in', 'exists', 'scalar-target', 'scalar-where', 'derived', 'derived-first', 'join-operand',
+                  'delete', 'insert-select', 'nested-sub']
+
+
+def _cte_parts(draw, outer):
+    """(name, WITH text, tags): a CTE with column a, called like the outer table (or a fresh name), that reads another table"""
+    other = _pick(draw, [t for t in sorted(model.SCHEMA) if t != outer])
+    name = _pick(draw, [outer, outer, 'w1'])
+    body = _pick(draw, CTE_BODIES['t1']).format(o=other)
+    tags = {'cte', 'cte:in-subquery', 'cte:name-shadows-outer-table' if name == outer else 'cte:name-fresh'}
+    return name, f'WITH {name} AS ({body})', tags
+
+
+def cte_in_subquery(draw):
+    outer = _pick(draw, sorted(model.SCHEMA))
+    second = model.SCHEMA[outer][1][0]
+    name, w, tags = _cte_parts(draw, outer)
+    place = _pick(draw, CTE_SUB_PLACES)
+    tags |= {'cte-sub:' + place}
+    out = f'SELECT x1.a AS c0, x1.{second} AS c1 FROM {outer} AS x1'
+    if place in ('in', 'not-in'):
+        neg = 'NOT ' if place == 'not-in' else ''
+        return _sel(f'{out} WHERE (x1.a {neg}IN ({w} SELECT y1.a FROM {name} AS y1 WHERE (y1.a IS NOT NULL)))', tags | {'sub:where'})
+    if place == 'exists':
+        neg = _pick(draw, ['', 'NOT '])
+        return _sel(f'{out} WHERE {neg}EXISTS ({w} SELECT 1 FROM {name} AS y1 WHERE (y1.a = x1.a))', tags | {'sub:where'})
+    if place == 'scalar-target':
+        return _sel(f'SELECT x1.a AS c0, ({w} SELECT max(y1.a) FROM {name} AS y1) AS c1, '
+                    f'(SELECT count(*) FROM {outer} AS y2) AS c2 FROM {outer} AS x1', tags | {'sub:target'})
+    if place == 'scalar-where':
+        return _sel(f'{out} WHERE (x1.a < ({w} SELECT max(y1.a) FROM {name} AS y1))', tags | {'sub:where'})
+    if place == 'derived':
+        kind = _pick(draw, ['JOIN', 'LEFT JOIN'])
+        return _sel(f'SELECT x1.a AS c0, s1.a AS c1 FROM {outer} AS x1 {kind} ({w} SELECT y1.a AS a FROM {name} AS y1) AS s1 '
+                    f'ON (s1.a = x1.a)', tags | {'sub:from'})
+    if place == 'derived-first':
+        kind = _pick(draw, ['JOIN', 'LEFT JOIN'])
+        return _sel(f'SELECT x1.a AS c0, s1.a AS c1 FROM ({w} SELECT y1.a AS a FROM {name} AS y1) AS s1 {kind} {outer} AS x1 '
+                    f'ON (s1.a = x1.a)', tags | {'sub:from'})
+    if place == 'join-operand':
+        # the table is read without alias outside, twice
+        return _sel(f'SELECT {outer}.a AS c0, s1.a AS c1, (SELECT count(*) FROM {outer}) AS c2 FROM {outer} '
+                    f'JOIN ({w} SELECT a FROM {name}) AS s1 ON (s1.a >= {outer}.a)', tags | {'sub:from'})
+    if place == 'delete':
+        neg = _pick(draw, ['', 'NOT '])
+        return _dml(f'DELETE FROM {outer} WHERE (a {neg}IN ({w} SELECT y1.a FROM {name} AS y1 WHERE (y1.a IS NOT NULL)))',
+                    tags | {'dml:delete'})
+    if place == 'insert-select':
+        return _dml(f'INSERT INTO {outer} (a, {second}) SELECT x1.a, 5 FROM {outer} AS x1 '
+                    f'WHERE (x1.a IN ({w} SELECT y1.a FROM {name} AS y1))', tags | {'dml:insert'})
+    # a sub-query in a sub-query: the WITH clause two levels down
+    return _sel(f'{out} WHERE (x1.a IN (SELECT y2.a FROM {outer} AS y2 WHERE (y2.a IN ({w} SELECT y1.a FROM {name} AS y1))))',
+                tags | {'sub:where'})
+
+
+# ---- operands of set operations: chains, parenthesised operands, operands with a WITH clause of their own, result
+#      columns of the first operand written without alias.  SQLite reads no parenthesised operand: the ground truth is the
+#      same statement with every parenthesised operand P written as SELECT * FROM (P)
+SETOPS = ['UNION', 'UNION ALL', 'INTERSECT', 'EXCEPT']
+COLUMN_STYLES = ['aliased', 'qualified', 'qualified-by-table', 'bare', 'expr', 'const', 'func', 'quoted']
+
+
+def _leaf(draw, k, ncols, style, src=None):
+    """one SELECT with ncols int columns over table src (default: drawn)"""
+    t = src or _pick(draw, sorted(model.SCHEMA))
+    c2 = model.SCHEMA[t][1][0]
+    al = f'x{k}'
+    names = ['a', c2][:ncols]
+    if style == 'aliased':
+        cols, frm = [f'{al}.{n} AS c{i}' for i, n in enumerate(names)], f'{t} AS {al}'
+    elif style == 'qualified':
+        cols, frm = [f'{al}.{n}' for n in names], f'{t} AS {al}'
+    elif style == 'qualified-by-table':
+        cols, frm = [f'{t}.{n}' for n in names], t
+    elif style == 'bare':
+        cols, frm = list(names), t
+    elif style == 'quoted':
+        cols, frm = [f'`{n}`' for n in names], t
+    elif style == 'expr':
+        cols, frm = [f'({n} + 1)' for n in names], t
+    elif style == 'const':
+        cols, frm = [str(7 + i) for i, _ in enumerate(names)], t
+    else:
+        cols, frm = [f'abs({n})' for n in names], t
+    where = _pick(draw, ['', '', f' WHERE ({"" if style not in ("aliased", "qualified") else al + "."}a > 1)'])
+    return f'SELECT {", ".join(cols)} FROM {frm}{where}', t
+
+
+def _first_col_tag(style):
+    # how the first result column of an operand that is itself a set operation is written: the engine calls the column
+    #  of `SELECT x1.a ...` a, whatever qualifier is written
+    return 'setop:nested-operand-first-column:' + ('qualified' if style.startswith('qualified') else style)
+
+
+def setop_operands(draw):
+    form = _pick(draw, ['flat', 'left-paren', 'right-paren', 'both-paren', 'with-select-right', 'with-select-left',
+                        'with-setop-right', 'with-setop-left', 'with-front-flat', 'with-front-paren'])
+    ncols = 1 if form.startswith('with') else _pick(draw, [1, 1, 2])
+    op1, op2, op3 = _pick(draw, SETOPS), _pick(draw, SETOPS), _pick(draw, SETOPS)
+    tags = {'setop:' + op1, 'setop-operand', 'setop-form:' + form}
+
+    def wrap(p):          # (text given to the parser, text SQLite reads)
+        return f'({p})', f'SELECT * FROM ({p})'
+
+    if not form.startswith('with'):
+        sa, sb, sc, sd = [_pick(draw, COLUMN_STYLES) for _ in range(4)]
+        A, _ = _leaf(draw, 1, ncols, sa)
+        B, _ = _leaf(draw, 2, ncols, sb)
+        C, _ = _leaf(draw, 3, ncols, sc)
+        tags |= {'setop:chain', 'setop:' + op2}
+        if form == 'flat':
+            return _sel(f'{A} {op1} {B} {op2} {C}', tags | {_first_col_tag(sa)})
+        tags.add('setop:parenthesised-operand')
+        if form == 'left-paren':
+            p, q = wrap(f'{A} {op1} {B}')
+            return _sel(f'{q} {op2} {C}', tags | {_first_col_tag(sa)}, sql_parsed=f'{p} {op2} {C}')
+        if form == 'right-paren':
+            p, q = wrap(f'{B} {op1} {C}')
+            return _sel(f'{A} {op2} {q}', tags | {_first_col_tag(sb)}, sql_parsed=f'{A} {op2} {p}')
+        D, _ = _leaf(draw, 4, ncols, sd)
+        p1, q1 = wrap(f'{A} {op1} {B}')
+        p2, q2 = wrap(f'{C} {op3} {D}')
+        return _sel(f'{q1} {op2} {q2}', tags | {'setop:' + op3, _first_col_tag(sa), _first_col_tag(sc)},
+                    sql_parsed=f'{p1} {op2} {p2}')
+
+    # forms with a WITH clause: the other operand(s) read table `outer`; the CTE is called like it, or w1
+    outer = _pick(draw, sorted(model.SCHEMA))
+    name, w, ctags = _cte_parts(draw, outer)
+    tags |= (ctags - {'cte:in-subquery'}) | {'cte:in-setop'}
+    O1, _ = _leaf(draw, 1, 1, _pick(draw, ['aliased', 'bare', 'qualified', 'qualified-by-table']), src=outer)   # reads the real table
+    sn = _pick(draw, ['aliased', 'bare', 'qualified'])
+    N1 = {'aliased': f'SELECT y1.a AS c0 FROM {name} AS y1', 'bare': f'SELECT a FROM {name}',
+          'qualified': f'SELECT y1.a FROM {name} AS y1'}[sn]                       # reads the CTE
+    N2 = _pick(draw, [f'SELECT y2.a FROM {name} AS y2 WHERE (y2.a > 2)', _leaf(draw, 5, 1, 'bare', src=outer)[0]])
+    if form in ('with-select-right', 'with-select-left'):
+        tags |= {'setop:parenthesised-operand', 'cte:own-of-parenthesised-operand'}
+        p, q = wrap(f'{w} {N1}')
+        if form == 'with-select-right':
+            return _sel(f'{O1} {op1} {q}', tags, sql_parsed=f'{O1} {op1} {p}')
+        return _sel(f'{q} {op1} {O1}', tags, sql_parsed=f'{p} {op1} {O1}')
+    if form in ('with-setop-right', 'with-setop-left'):
+        tags |= {'setop:parenthesised-operand', 'cte:own-of-parenthesised-operand', 'setop:chain', 'setop:' + op2,
+                 _first_col_tag(sn)}
+        p, q = wrap(f'{w} {N1} {op2} {N2}')
+        if form == 'with-setop-right':
+            return _sel(f'{O1} {op1} {q}', tags, sql_parsed=f'{O1} {op1} {p}')
+        return _sel(f'{q} {op1} {O1}', tags, sql_parsed=f'{p} {op1} {O1}')
+    tags |= {'setop:chain', 'setop:' + op2, 'cte:in-front-of-chain', _first_col_tag(sn)}
+    if form == 'with-front-flat':
+        return _sel(f'{w} {N1} {op1} {O1} {op2} {N2}', tags)
+    tags.add('setop:parenthesised-operand')
+    p, q = wrap(f'{N1} {op1} {O1}')
+    return _sel(f'{w} {q} {op2} {N2}', tags, sql_parsed=f'{w} {p} {op2} {N2}')
+
+
 SHAPES = [plus_text, plus_text, bool_typed, bool_typed, captured_order, json_arrow, exists_alias, create_existing,
-          cte_on_setop, offset_only, anon_names, exponent_const]
+          cte_on_setop, offset_only, anon_names, exponent_const, cte_in_subquery, cte_in_subquery, setop_operands,
+          setop_operands]
 
 
 @st.composite
@@ -218,6 +387,166 @@ def shapes(draw):
     c = _pick(draw, SHAPES)(draw)
     c['data'] = draw(model.table_data(min_rows=1))
     return c
+
+
+# ---- one renderer object used for several statements: `history` = the statements rendered before the judged one by
+#      the same SqlalchemyRender object (with the default fallback, the way an application calls get_string).  What the
+#      renderer printed, refused or left half-done for an earlier statement must not change the later rendering
+REFUSED_PARTS = {
+    # places of a select the renderer refuses (NotImplementedError / an SQLAlchemy error)
+    'right-join': 'SELECT {q}.a FROM t1 AS {q} RIGHT JOIN t2 AS z9 ON ({q}.a = z9.a)',
+    'cast-unknown-type': 'SELECT CAST({q}.a AS foo) FROM t1 AS {q}',
+    'in-single-value': 'SELECT {q}.a FROM t1 AS {q} WHERE ({q}.a IN (1))',
+    'function-from-argument': 'SELECT count({q}.a FROM 2) FROM t1 AS {q}',
+    'next-value': 'SELECT next_value({q}.a) FROM t1 AS {q}',
+    'refused-in-subquery': 'SELECT {q}.a FROM t1 AS {q} WHERE ({q}.a IN (SELECT z8.a FROM t2 AS z8 RIGHT JOIN t3 AS z9 ON (z8.a = z9.a)))',
+    'refused-in-cte': 'WITH w9 AS (SELECT CAST(z9.a AS foo) AS a FROM t2 AS z9) SELECT {q}.a FROM w9 AS {q}',
+}
+REFUSED_STATEMENTS = ['INSERT INTO t1 VALUES (1, 2, \'x\')', 'SELECT * FROM t1 UNION SELECT a, c FROM t2',
+                      'UPDATE t1 SET a = 1 FROM (SELECT a FROM t2) AS s1 WHERE t1.a = s1.a',
+                      'CREATE TABLE n9 (k0 foo)', 'SELECT a FROM t1 AS x1.y1']
+RENDERED_STATEMENTS = ['SELECT a FROM t1 UNION SELECT a FROM t2 UNION ALL SELECT a FROM t3',
+                       '(SELECT a FROM t1 UNION SELECT a FROM t2) EXCEPT SELECT a FROM t3',
+                       'WITH w1 AS (SELECT a FROM t2) SELECT a FROM w1 UNION SELECT a FROM t1 UNION SELECT a FROM w1',
+                       'WITH t1 AS (SELECT a FROM t2) SELECT a FROM t1', 'SELECT a FROM (SELECT a FROM t1)',
+                       "SELECT CAST(a AS BOOL), 'x', 1.5, b + '1' FROM t1 ORDER BY a DESC NULLS LAST LIMIT 2 OFFSET 1",
+                       'SELECT a, rank() OVER (ORDER BY a DESC NULLS FIRST) FROM t1', 'SELECT a FROM t1 ORDER BY a OFFSET 2',
+                       "INSERT INTO t1 (a, b, s) VALUES (1, 2, 'x')", 'UPDATE t1 SET `a` = 1 WHERE b IS NULL',
+                       'DELETE FROM t1 WHERE a = 1', 'CREATE TABLE IF NOT EXISTS n9 (k0 int PRIMARY KEY, k1 varchar(10))',
+                       'DROP TABLE IF EXISTS n9', 'SELECT a FROM t1 FOR UPDATE', 'SELECT DISTINCT a FROM t1 LEFT JOIN t2 ON t1.a = t2.a']
+
+
+def _history_item(draw):
+    """(statement, tags): a statement rendered earlier by the same renderer object"""
+    kind = _pick(draw, ['refused-operand-in-nested-setop', 'refused-operand-in-nested-setop', 'refused-operand-in-setop',
+                        'refused-select', 'refused-statement', 'rendered'])
+    if kind == 'rendered':
+        return _pick(draw, RENDERED_STATEMENTS), {'reuse:history:rendered'}
+    if kind == 'refused-statement':
+        return _pick(draw, REFUSED_STATEMENTS), {'reuse:history:refused'}
+    why = _pick(draw, sorted(REFUSED_PARTS))
+    bad = REFUSED_PARTS[why].format(q='z1')
+    tags = {'reuse:history:refused', 'reuse:history:refused:' + why}
+    if kind == 'refused-select':
+        return bad, tags
+    ok = ['SELECT a FROM t2', 'SELECT x2.a FROM t3 AS x2 WHERE (x2.a > 1)', 'WITH w9 AS (SELECT a FROM t4) SELECT a FROM w9']
+    op1, op2 = _pick(draw, SETOPS), _pick(draw, SETOPS)
+    a, b = _pick(draw, ok[:2]), _pick(draw, ok[:2])
+    if kind == 'refused-operand-in-setop':
+        return _pick(draw, [f'{a} {op1} {bad}', f'{bad} {op1} {a}']), tags | {'reuse:history:refused-in-setop'}
+    # a set operation that has a set operation as an operand, one operand of which is refused: the position of the
+    #  refused operand decides what the renderer had begun when it gave up
+    form = _pick(draw, ['(P) x R', '(R x P) x P', '(P x R) x P', 'P x (P x R)', 'P x (R x P)', 'R x (P x P)', 'P x P x R',
+                        'R x P x P', 'W P x P x R', '(P x P) x (P x R)'])
+    text, ops = '', [op1, op2, _pick(draw, SETOPS)]
+    for ch in form:
+        if ch == 'P':
+            text += _pick(draw, [a, b])
+        elif ch == 'R':
+            text += bad
+        elif ch == 'x':
+            text += ops.pop(0)
+        elif ch == 'W':
+            text += 'WITH w8 AS (SELECT a FROM t4)'
+        else:
+            text += ch
+    if form == '(P) x R':
+        text = f'({a} {op2} {b}) {op1} {bad}'
+    return text, tags | {'reuse:history:refused-in-setop', 'reuse:history:refused-in-nested-setop'}
+
+
+def _retag(c, extra):
+    c = dict(c)
+    c['meta'] = dict(c['meta'], tags=sorted(set(c['meta']['tags']) | extra))
+    return c
+
+
+def reuse(draw, other_cases):
+    """the judged statement: a statement whose rendering depends on where a name is bound (WITH inside a sub-query /
+    operand), or any other case of the check (`other_cases`: strategy); before it, 1-3 history statements"""
+    which = draw(st.integers(0, 5))
+    if which <= 2:
+        c = cte_in_subquery(draw)
+        c['data'] = draw(model.table_data(min_rows=1))
+    elif which == 3:
+        c = setop_operands(draw)
+        c['data'] = draw(model.table_data(min_rows=1))
+    else:
+        c = draw(other_cases)
+    history, tags = [], {'reuse'}
+    for _ in range(draw(st.integers(1, 3))):
+        h, t = _history_item(draw)
+        history.append(h)
+        tags |= t
+    if 'reuse:history:refused-in-nested-setop' in tags and {'cte:in-subquery', 'cte:name-shadows-outer-table'} <= set(c['meta']['tags']):
+        tags.add('reuse:refused-nested-setop-then-scoped-cte')
+    c = _retag(c, tags)
+    c['history'] = history
+    return c
+
+
+# ---- sort direction x NULLS modifier, every combination at every place an ORDER BY key can stand (bounded-exhaustive)
+DIRECTIONS = ['', ' ASC', ' DESC']
+NULLS = ['', ' NULLS FIRST', ' NULLS LAST']
+ORDER_DATA = [
+    {'t1': [[2, 1, 'x'], [None, 2, 'y'], [1, None, None], [3, 0, 'x'], [None, None, 'y'], [1, 3, None], [0, 2, 'x']],
+     't2': [[0, 1], [1, 1], [2, 2], [3, 0], [None, 1]], 't3': [], 't4': []},
+    {'t1': [[a, b, s] for a in (None, 0, 1) for b in (None, 1, 2) for s in (None, 'x')],
+     't2': [[None, 0], [1, 1], [2, 2]], 't3': [], 't4': []},
+]
+T1 = 'SELECT x1.a AS c0, x1.b AS c1, x1.s AS c2 FROM t1 AS x1'
+
+
+def _order_places():
+    """(place, text with {k} for direction + modifier of the key under test [{k2}: of another key], order_cols, total_order)"""
+    return [
+        ('alias', T1 + ' ORDER BY c0{k}', [0], False),
+        ('source-column', T1 + ' ORDER BY x1.a{k}', [0], False),
+        ('bare-column', 'SELECT a, b, s FROM t1 ORDER BY a{k}', [0], False),
+        ('text-column', T1 + ' ORDER BY c2{k}', [2], False),
+        ('expression', 'SELECT (x1.a + 1) AS c0, x1.b AS c1 FROM t1 AS x1 ORDER BY (x1.a + 1){k}', [0], False),
+        ('ordinal', T1 + ' ORDER BY 1{k}', [0], False),
+        ('first-of-three', T1 + ' ORDER BY c0{k}, c1, c2', [0, 1, 2], True),
+        ('second-key', T1 + ' ORDER BY c2, c0{k}', [2, 0], False),
+        ('last-of-three', T1 + ' ORDER BY c2 DESC, c1 NULLS LAST, c0{k}', [2, 1, 0], True),
+        ('with-limit', T1 + ' ORDER BY c0{k}, c1, c2 LIMIT 3', [0, 1, 2], True),
+        ('with-limit-offset', T1 + ' ORDER BY c0{k}, c1, c2 LIMIT 2 OFFSET 2', [0, 1, 2], True),
+        ('distinct', 'SELECT DISTINCT x1.a AS c0 FROM t1 AS x1 ORDER BY c0{k}', [0], True),
+        ('grouped-aggregate', 'SELECT x1.a AS c0, max(x1.b) AS c1 FROM t1 AS x1 GROUP BY x1.a ORDER BY c1{k}, c0', [1, 0], True),
+        ('derived-table-limit', 'SELECT s1.c0 AS c0, s1.c1 AS c1, s1.c2 AS c2 FROM (' + T1 + ' ORDER BY c0{k}, c1, c2 LIMIT 3) AS s1', [], False),
+        ('in-subquery-limit', 'SELECT y1.a AS c0, y1.c AS c1 FROM t2 AS y1 WHERE (y1.a IN (SELECT x1.b FROM t1 AS x1 ORDER BY x1.b{k}, x1.a LIMIT 2))', [], False),
+        ('cte-limit', 'WITH w1 AS (' + T1 + ' ORDER BY c0{k}, c1, c2 LIMIT 4) SELECT w1.c0 AS c0, w1.c1 AS c1 FROM w1', [], False),
+        ('window-rank', 'SELECT x1.a AS c0, x1.b AS c1, rank() OVER (ORDER BY x1.a{k}) AS c2 FROM t1 AS x1', [], False),
+        ('window-dense-rank-text', 'SELECT x1.a AS c0, x1.s AS c1, dense_rank() OVER (ORDER BY x1.s{k}) AS c2 FROM t1 AS x1', [], False),
+        ('window-partition', 'SELECT x1.a AS c0, x1.s AS c1, rank() OVER (PARTITION BY x1.s ORDER BY x1.a{k}) AS c2 FROM t1 AS x1', [], False),
+        ('window-running-sum', 'SELECT x1.a AS c0, x1.b AS c1, sum(x1.b) OVER (ORDER BY x1.a{k}) AS c2 FROM t1 AS x1', [], False),
+        ('window-second-key', 'SELECT x1.a AS c0, x1.s AS c1, rank() OVER (ORDER BY x1.s DESC, x1.a{k}) AS c2 FROM t1 AS x1', [], False),
+        ('window-and-order', 'SELECT x1.a AS c0, x1.b AS c1, rank() OVER (ORDER BY x1.a{k}) AS c2 FROM t1 AS x1 ORDER BY c0{k}', [0], False),
+        ('two-keys', T1 + ' ORDER BY c2{k2}, c0{k}', [2, 0], False),
+        ('window-two-keys', 'SELECT x1.a AS c0, x1.s AS c1, rank() OVER (ORDER BY x1.s{k2}, x1.a{k}) AS c2 FROM t1 AS x1', [], False),
+    ]
+
+
+def order_matrix_cases():
+    out = []
+    combos = [d + n for d in DIRECTIONS for n in NULLS]
+    for place, text, oc, total in _order_places():
+        for d in DIRECTIONS:
+            for n in NULLS:
+                for k2 in (combos if '{k2}' in text else ['']):
+                    tags = {'order', 'order-matrix', 'order-matrix:' + place,
+                            'order-key:' + (d.strip() or 'no-direction') + '/' + (n.strip() or 'no-modifier')}
+                    if n:
+                        tags.add('window:nulls' if place.startswith('window') else 'order:nulls')
+                    if place.startswith('window'):
+                        tags.add('window')
+                    sql = text.format(k=d + n, k2=k2)
+                    for i, data in enumerate(ORDER_DATA):
+                        for target in ('sqlite', 'mysql', 'postgresql'):
+                            c = _sel(sql, tags, order_cols=oc, total_order=total)
+                            c['data'], c['target'] = data, target
+                            out.append(c)
+    return out
 
 
 # ---- rank of operators: x OP1 y OP2 z without parentheses, every ordered pair (bounded-exhaustive)
